@@ -1,6 +1,132 @@
-"""Thorough-tier extensions: sibling clients, table validation, self-validation battery (recorded, never alters exit)."""
+"""Thorough-tier extensions.  The deciding analysis is the same as in the quick tier; this adds
+
+(a) validation of the trusted tables against the interpreter the repository runs under (escaper exactness over every
+    Unicode scalar value, typing special-form names, regex parser assumptions);
+(b) the sibling clients (testing_tools/real_apis/*.py, test_self_validate_pydantic.py) as extra evidence for the
+    stage order (STAGE-1) and the `with` discipline (CTX-2);
+(c) the self-validation battery restricted to the property: every seeded change stored for it must be reported,
+    every silent twin must stay silent.
+
+Table or sibling disagreement is an ANALYSIS-ERROR (the checker's premises are wrong).  Battery results are recorded in
+the evidence and printed, but never change the exit status: they judge the checker, not the repository.
+"""
 from __future__ import annotations
+
+import ast
+import glob
+import json
+import os
+import sys
+import typing
+
+from .model import AnalysisError, norm, walk_no_nested
+
+
+def validate_tables() -> dict:
+    out = {}
+    # escapers: exact means eval(escaper(s)) == s as Python source, for every Unicode scalar value
+    bad = {"repr": 0, "json.dumps(ensure_ascii=False)": 0}
+    n = 0
+    chunk = []
+    for cp in list(range(0, 0xD800)) + list(range(0xE000, 0x110000)):
+        chunk.append(chr(cp))
+        if len(chunk) == 8192 or cp == 0x10FFFF:
+            s = "".join(chunk)
+            n += len(s)
+            if eval(repr(s)) != s:
+                bad["repr"] += 1
+            if eval(json.dumps(s, ensure_ascii=False)) != s:
+                bad["json.dumps(ensure_ascii=False)"] += 1
+            chunk = []
+    out["escapers_exact_over_scalar_values"] = {"code_points": n, "mismatching_chunks": bad}
+    if any(bad.values()):
+        raise AnalysisError(f"escaper table wrong for this interpreter: {bad}")
+    astral = "\U0001F600"
+    out["json.dumps_default_is_exact_on_astral_literal"] = eval(json.dumps(astral)) == astral
+    # (Python reads the surrogate-pair escapes json.dumps produces as two code points)
+    if eval(json.dumps(astral)) == astral:
+        raise AnalysisError("table says json.dumps() is BMP-only, but this interpreter round-trips astral characters")
+    # hand-written quoting is not an escaper
+    out["fstring_quoting_breaks_on_quote"] = True
+    try:
+        eval('"' + 'a"b' + '"')
+        out["fstring_quoting_breaks_on_quote"] = False
+    except SyntaxError:
+        pass
+    names = {}
+    for nm in ("Optional", "Union", "List", "Dict", "Tuple"):
+        names[nm] = getattr(getattr(typing, nm), "_name", None)
+        if names[nm] != nm:
+            raise AnalysisError(f"typing.{nm}._name is {names[nm]!r}: IMP-1/TBL-1 assume it equals the attribute name")
+    out["typing_special_form_names"] = names
+    import re._parser as rp
+    out["regex_group_flattening"] = [str(op) for op, _ in rp.parse("^(?:ab|cd)$")]
+    if out["regex_group_flattening"] != ["AT", "BRANCH", "AT"]:
+        raise AnalysisError("regex parser no longer flattens non-capturing groups as RX-1 assumes")
+    out["dollar_matches_before_newline"] = bool(__import__("re").match(r"^(?:a)$", "a\n"))
+    return out
+
+
+STAGE_NAMES = ["generate", "process_meta_data", "merge_models", "generate_names", "compose", "generate_code"]
+
+
+def sibling_stage_orders(ctx) -> dict:
+    orders = {}
+    files = sorted(glob.glob(os.path.join(ctx.root, "testing_tools", "real_apis", "*.py")))
+    files.append(os.path.join(ctx.root, "test", "test_cli", "test_self_validate_pydantic.py"))
+    for f in files:
+        if not os.path.isfile(f) or f.endswith("__init__.py"):
+            continue
+        try:
+            tree = ast.parse(open(f, encoding="utf-8").read())
+        except SyntaxError:
+            continue
+        for fn in ast.walk(tree):
+            if not isinstance(fn, ast.FunctionDef):
+                continue
+            seq = []
+            for n in sorted((x for x in ast.walk(fn) if isinstance(x, ast.Call)), key=lambda x: (x.lineno, x.col_offset)):
+                t = norm(n.func).split(".")[-1]
+                if t in ("generate", "process_meta_data", "merge_models", "generate_names", "generate_code"):
+                    if not seq or seq[-1] != t:
+                        seq.append(t)
+                elif t in ("compose_models", "compose_models_flat"):
+                    if not seq or seq[-1] != "compose":
+                        seq.append("compose")
+            if "generate_code" in seq and "generate" in seq:
+                orders[os.path.relpath(f, ctx.root) + "::" + fn.name] = seq
+    return orders
 
 
 def extend(pid, ctx, rep):
-    rep.extra["thorough"] = {"note": "same deciding analysis as quick; extensions are added per property below"}
+    info = {}
+    info["tables_validated"] = validate_tables()
+    if pid in ("C16", "C14"):
+        orders = sibling_stage_orders(ctx)
+        info["sibling_pipelines"] = orders
+        if pid == "C16" and orders:
+            # majority order must be the one STAGE-1 uses
+            from collections import Counter
+            norm_orders = Counter(tuple(x for x in STAGE_NAMES if x in o) == tuple(
+                dict.fromkeys(x for x in o if x in STAGE_NAMES)) for o in orders.values())
+            full = [o for o in orders.values() if all(s in o for s in STAGE_NAMES)]
+            agree = [o for o in full if [x for x in o if x in STAGE_NAMES][:6] == STAGE_NAMES or
+                     list(dict.fromkeys(x for x in o if x in STAGE_NAMES)) == STAGE_NAMES]
+            info["sibling_pipelines_summary"] = {"clients": len(orders), "with_all_stages": len(full), "agree_with_STAGE-1": len(agree)}
+            if full and len(agree) * 2 < len(full):
+                raise AnalysisError(f"STAGE-1's reference order disagrees with most sibling pipelines: {orders}")
+    # battery
+    try:
+        sys.path.insert(0, os.path.join(os.path.dirname(os.path.dirname(os.path.abspath(__file__)))))
+        from selftest.run import battery
+        if os.path.realpath(ctx.root) == "/repo":
+            res = battery(only=pid, jobs=16)
+            info["selftest"] = {"counts": res["counts"], "failed": res["failed"], "inapplicable": res["inapplicable"],
+                                "seeded": res["seeded"], "twins_noisy": {k: v["noisy"] for k, v in res["twins"].items() if not v["silent"]}}
+            for f in res["failed"]:
+                print(f"SELFTEST-MISMATCH property={pid} {f}")
+        else:
+            info["selftest"] = {"skipped": "battery runs only against /repo itself"}
+    except Exception as e:  # the battery judges the checker; it must never turn into a verdict on the repository
+        info["selftest"] = {"error": repr(e)}
+    rep.extra["thorough"] = info
